@@ -73,6 +73,14 @@ def resolve_member(expr):
     return eval(expr, {'operator': operator, '__builtins__': vars(builtins)})
 
 
+class VFn:
+    """opaque callable value"""
+    __slots__ = ('name', 'sort')
+
+    def __init__(self, name, sort):
+        self.name, self.sort = name, sort
+
+
 class VMatch:
     """abstract re.Match object: groups are uninterpreted functions of (pattern, method, subject)"""
     __slots__ = ('pattern', 'subject', 'method')
@@ -169,6 +177,8 @@ class ZS:
             return VAbs(z3.Const(name, self.zsort(S)), S)
         if isinstance(S, api.Const):
             return S.value
+        if isinstance(S, api.Fn):
+            return VFn(S.fname or name, S)
         if isinstance(S, api.MatchS):
             pat = resolver(S.pattern_expr) if resolver else None
             return VMatch(pat, z3.Const(name + '?subject', z3.StringSort()), S.method)
